@@ -129,6 +129,72 @@ impl Files {
     }
 }
 
+/// A CSV table the application reads BY HEADER NAME (csv reader with headers + a serde struct with named fields: the
+/// restricted-turn file and the vehicle restriction file; the road class file is headerless, one value per line).
+/// `layout` picks the column order and extra columns: a quarter of the layouts is the canonical file, the others
+/// permute the named columns and add unrelated columns before / between / after them (integers that look like ids,
+/// so that a positional reader silently reads the wrong thing).  The table's MEANING does not depend on the layout.
+fn csv_with_layout(cols: &[&str], rows: &[Vec<String>], layout: u64) -> String {
+    let n = cols.len();
+    let (perm_ix, extras) = if layout % 4 == 0 { (0u64, 0u64) } else { ((layout / 4) % (1..=n as u64).product::<u64>(), (layout / 4 / 24) % 5) };
+    // perm_ix-th permutation (factorial number system)
+    let mut pool: Vec<usize> = (0..n).collect();
+    let mut order: Vec<usize> = vec![];
+    let mut k = perm_ix;
+    for i in (1..=n).rev() {
+        let f: u64 = (1..i as u64).product();
+        let j = (k / f) as usize;
+        k %= f;
+        order.push(pool.remove(j));
+    }
+    // column plan: Ok(named column index) or Err(extra column kind)
+    let mut plan: Vec<Result<usize, usize>> = vec![];
+    if extras == 1 || extras == 4 {
+        plan.push(Err(0));
+    }
+    for (i, c) in order.iter().enumerate() {
+        plan.push(Ok(*c));
+        if i == 0 && (extras == 2 || extras == 4) {
+            plan.push(Err(1));
+        }
+    }
+    if extras == 3 || extras == 4 {
+        plan.push(Err(2));
+    }
+    let extra_names = ["row_id", "way_id", "source"];
+    let mut out = plan.iter().map(|c| match c { Ok(i) => cols[*i].to_string(), Err(k) => extra_names[*k].to_string() }).collect::<Vec<_>>().join(",");
+    out.push('\n');
+    for (ri, row) in rows.iter().enumerate() {
+        let line = plan
+            .iter()
+            .map(|c| match c {
+                Ok(i) => row[*i].clone(),
+                Err(0) => ri.to_string(),
+                Err(1) => ((ri * 7 + 3) % 11).to_string(),
+                Err(_) => "survey".to_string(),
+            })
+            .collect::<Vec<_>>()
+            .join(",");
+        out.push_str(&line);
+        out.push('\n');
+    }
+    out
+}
+/// the layout of a leaf's file is a function of the leaf's content: replays reproduce it, no extra case field is needed
+fn layout_of(c: &Cfg) -> u64 {
+    mix64(fnv(&cfg_to_json(c).to_string()))
+}
+/// SplitMix64 finaliser: FNV's low bits depend on the low bits of the input bytes only
+fn mix64(mut z: u64) -> u64 {
+    z = (z ^ (z >> 30)).wrapping_mul(0xBF58_476D_1CE4_E5B9);
+    z = (z ^ (z >> 27)).wrapping_mul(0x94D0_49BB_1331_11EB);
+    z ^ (z >> 31)
+}
+fn layout_kind(c: &Cfg) -> String {
+    let (l, n) = match c { Cfg::Turn { .. } => (layout_of(c), 2u64), Cfg::Vehicle { .. } => (layout_of(c), 24u64), _ => return "n/a".into() };
+    if l % 4 == 0 { "canonical".into() } else { format!("perm{}_extras{}", if (l / 4) % n == 0 { "Id" } else { "X" }, (l / 4 / 24) % 5) }
+}
+
 /// the configuration JSON the application would read, with the tables written to files
 fn config_json(c: &Cfg, files: &mut Files) -> Value {
     match c {
@@ -146,19 +212,15 @@ fn config_json(c: &Cfg, files: &mut Files) -> Value {
         }
         Cfg::Vehicle { rows } => {
             let p = files.path("csv");
-            let mut body = String::from("edge_id,restriction_name,restriction_value,restriction_unit\n");
-            for (e, n, v, u) in rows {
-                body.push_str(&format!("{},{},{:?},{}\n", e, n, v, u));
-            }
+            let table: Vec<Vec<String>> = rows.iter().map(|(e, n, v, u)| vec![e.to_string(), n.clone(), format!("{:?}", v), u.clone()]).collect();
+            let body = csv_with_layout(&["edge_id", "restriction_name", "restriction_value", "restriction_unit"], &table, layout_of(c));
             std::fs::write(&p, body).unwrap();
             json!({"type": "vehicle_restriction", "vehicle_restriction_input_file": p.to_str().unwrap()})
         }
         Cfg::Turn { pairs } => {
             let p = files.path("csv");
-            let mut body = String::from("prev_edge_id,next_edge_id\n");
-            for (a, b) in pairs {
-                body.push_str(&format!("{},{}\n", a, b));
-            }
+            let table: Vec<Vec<String>> = pairs.iter().map(|(a, b)| vec![a.to_string(), b.to_string()]).collect();
+            let body = csv_with_layout(&["prev_edge_id", "next_edge_id"], &table, layout_of(c));
             std::fs::write(&p, body).unwrap();
             json!({"type": "turn_restriction", "turn_restriction_input_file": p.to_str().unwrap()})
         }
@@ -231,6 +293,41 @@ struct FCase {
     nprev: usize,
 }
 
+fn count_layouts(st: &mut Stream, c: &Cfg) {
+    match c {
+        Cfg::Combined(inner) => inner.iter().for_each(|i| count_layouts(st, i)),
+        Cfg::Turn { .. } => st.count(&format!("turn_file:{}", layout_kind(c))),
+        Cfg::Vehicle { .. } => st.count(&format!("vehicle_file:{}", layout_kind(c))),
+        _ => {}
+    }
+}
+/// the same table with a file layout of the wanted kind: repeats the first row (which changes nothing but the content
+/// hash the layout is derived from) until `layout_kind` is the wanted one
+fn turn_with_layout(pairs: &[(usize, usize)], kind: &str) -> Cfg {
+    let mut p = pairs.to_vec();
+    for _ in 0..400 {
+        let c = Cfg::Turn { pairs: p.clone() };
+        if layout_kind(&c) == kind {
+            return c;
+        }
+        p.push(pairs[0]);
+    }
+    panic!("no turn table with layout {}", kind)
+}
+fn vehicle_with_layout(rows: &[(usize, String, f64, String)], kind: &str) -> Cfg {
+    let mut p = rows.to_vec();
+    for _ in 0..2000 {
+        let c = Cfg::Vehicle { rows: p.clone() };
+        if layout_kind(&c) == kind {
+            return c;
+        }
+        p.push(rows[0].clone());
+    }
+    panic!("no vehicle table with layout {}", kind)
+}
+const LAYOUT_KINDS: [&str; 11] = ["canonical", "permId_extras0", "permId_extras1", "permId_extras2", "permId_extras3", "permId_extras4",
+                                  "permX_extras0", "permX_extras1", "permX_extras2", "permX_extras3", "permX_extras4"];
+
 fn has_kind(c: &Cfg, k: &str) -> bool {
     match c {
         Cfg::Combined(inner) => k == "combined" || inner.iter().any(|i| has_kind(i, k)),
@@ -275,6 +372,7 @@ fn add_fcase(st: &mut Stream, fc: &FCase, dir: &Path) {
     if fc.cut.is_some() {
         st.count("edge_cut");
     }
+    count_layouts(st, &fc.cfg);
     if fc.nested {
         st.count("direct_composition");
     }
@@ -640,6 +738,55 @@ fn boundary_fcases() -> Vec<FCase> {
     v.push(FCase { family: "road_class_aliasing".into(), nested: false,
                    cfg: Cfg::Combined(vec![Cfg::Turn { pairs: vec![(0, 1)] }, Cfg::RoadClass { lookup: alias_lookup.clone(), mapping: alias_mapping.clone() }]),
                    query: json!({"road_classes": ["class_71", "class_0"]}), cut: Some(vec![4]), nedges: alias_lookup.len(), nprev: 1 });
+    // (4b) the two tables read by header name, in every file layout: column order permuted, unrelated columns before /
+    // between / after the named ones (seeded/C04-11: a positional reader swaps prev and next)
+    let tp = [(0usize, 1usize), (2, 0), (1, 3), (3, 3)];
+    for kind in LAYOUT_KINDS {
+        v.push(FCase { family: "turn_file_layouts".into(), nested: false, cfg: turn_with_layout(&tp, kind), query: json!({}), cut: None, nedges: 4, nprev: 4 });
+    }
+    v.push(FCase { family: "turn_file_layouts".into(), nested: false,
+                   cfg: Cfg::Combined(vec![Cfg::RoadClass { lookup: vec![0, 0, 1, 0], mapping: vec![] }, turn_with_layout(&tp, "permX_extras1")]),
+                   query: json!({"road_classes": [0]}), cut: Some(vec![3]), nedges: 4, nprev: 4 });
+    {
+        let veh = Vehicle { height: (4.0, 0), width: (2.5, 0), total_length: (20.0, 0), trailer_length: (13.5, 0), total_weight: (36.0, 1), axles: 5 };
+        let vr = vec![
+            (1usize, "maximum_height".to_string(), 13.0, "feet".to_string()),
+            (2, "maximum_total_weight".to_string(), 80000.0, "pounds".to_string()),
+            (3, "maximum_total_weight".to_string(), 30000.0, "kg".to_string()),
+            (0, "maximum_width".to_string(), 2.0, "meters".to_string()),
+            (4, "maximum_weight_per_axle".to_string(), 7.5, "tons".to_string()),
+        ];
+        for kind in ["canonical", "permX_extras0", "permX_extras1", "permX_extras2", "permX_extras3", "permX_extras4"] {
+            v.push(FCase { family: "vehicle_file_layouts".into(), nested: false, cfg: vehicle_with_layout(&vr, kind),
+                           query: json!({"vehicle_parameters": veh.query()}), cut: None, nedges: 6, nprev: 0 });
+        }
+    }
+    // (4c) exactly at the limit, one float below, one float above, vehicle and restriction in the SAME unit (the conversion
+    // is the identity, so the comparison is exact): the vehicle does not exceed a limit it equals
+    for k in 0..6 {
+        let nunits = if KINDS[k].2 { 3 } else { 5 };
+        for u in 0..nunits {
+            for value in [36.0f64, 0.1, 13.5] {
+                let mut veh = Vehicle { height: (4.0, 0), width: (2.5, 0), total_length: (20.0, 0), trailer_length: (13.5, 0), total_weight: (36.0, 1), axles: 1 };
+                match KINDS[k].1 {
+                    "height" => veh.height = (value, u),
+                    "width" => veh.width = (value, u),
+                    "total_length" => veh.total_length = (value, u),
+                    "trailer_length" => veh.trailer_length = (value, u),
+                    _ => veh.total_weight = (value, u),
+                }
+                let unit = if KINDS[k].2 { WEIGHT_UNITS[u].0 } else { DIST_UNITS[u].0 };
+                let below = f64::from_bits(value.to_bits() - 1);
+                let above = f64::from_bits(value.to_bits() + 1);
+                let rows = vec![
+                    (0usize, KINDS[k].0.to_string(), value, unit.to_string()),
+                    (1, KINDS[k].0.to_string(), below, unit.to_string()),
+                    (2, KINDS[k].0.to_string(), above, unit.to_string()),
+                ];
+                v.push(FCase { family: "at_the_limit".into(), nested: false, cfg: Cfg::Vehicle { rows }, query: json!({"vehicle_parameters": veh.query()}), cut: None, nedges: 3, nprev: 0 });
+            }
+        }
+    }
     // the class table is shorter than the edge list
     v.push(FCase { family: "road_class_table_short".into(), nested: false, cfg: Cfg::RoadClass { lookup: vec![0, 1, 0], mapping: vec![] }, query: json!({"road_classes": [0]}), cut: None, nedges: 5, nprev: 0 });
     v.push(FCase { family: "road_class_table_short".into(), nested: false, cfg: Cfg::RoadClass { lookup: vec![0, 1, 0], mapping: vec![] }, query: json!({}), cut: None, nedges: 5, nprev: 0 });
@@ -751,6 +898,9 @@ fn stream_frontier(a: &Args) {
         add_fcase(&mut st, &fc, &dir);
         st.finish();
         return;
+    }
+    for (_, fc) in frontier_witnesses() {
+        add_fcase(&mut st, &fc, &dir);
     }
     for fc in boundary_fcases() {
         add_fcase(&mut st, &fc, &dir);
@@ -887,6 +1037,7 @@ fn add_scase(st: &mut Stream, sc: &SCase, dir: &Path) -> String {
     if sc.cut.is_some() {
         st.count("edge_cut");
     }
+    count_layouts(st, &sc.cfg);
     let rl = o.routes.iter().map(|r| r.len()).max().unwrap_or(0);
     st.count(&format!("route_edges:{}", if rl > 6 { "7+".to_string() } else { rl.to_string() }));
     let ts = o.trees.iter().map(|t| t.len()).max().unwrap_or(0);
@@ -1051,13 +1202,43 @@ fn regression_witnesses() -> Vec<(&'static str, SCase)> {
     vec![
         ("seed_C04-7_class_7_not_71", SCase { family: "corpus_class_alias".into(), w: w.clone(), q: q.clone(), nested: false, cfg: rc.clone(),
                                              query: json!({"road_classes": [7]}), cut: None, ksp: None, yens: false }),
+        // seeded/C04-11: the turn e0 -> e1 is restricted, the file's header is next_edge_id,prev_edge_id
+        ("seed_C04-11_route_avoids_turn", SCase { family: "corpus_turn_file_layout".into(), w: w.clone(), q: q.clone(), nested: false,
+                                                 cfg: turn_with_layout(&[(0, 1)], "permX_extras0"), query: json!({}), cut: None, ksp: None, yens: false }),
         ("seed_C04-7_class_71_not_7", SCase { family: "corpus_class_alias".into(), w: w.clone(), q: Query { target: None, ..q.clone() }, nested: false, cfg: rc.clone(),
                                              query: json!({"road_classes": ["seventy_one"]}), cut: None, ksp: None, yens: false }),
     ]
 }
 
+/// frontier-stream regression witnesses
+fn frontier_witnesses() -> Vec<(&'static str, FCase)> {
+    let veh = Vehicle { height: (4.0, 0), width: (2.5, 0), total_length: (20.0, 0), trailer_length: (13.5, 0), total_weight: (36.0, 1), axles: 1 };
+    let rows = vec![
+        (0usize, "maximum_total_weight".to_string(), 36.0, "tons".to_string()),
+        (1, "maximum_total_weight".to_string(), f64::from_bits(36.0f64.to_bits() - 1), "tons".to_string()),
+        (2, "maximum_height".to_string(), 4.0, "meters".to_string()),
+        (3, "maximum_weight_per_axle".to_string(), 36.0, "tons".to_string()),
+    ];
+    vec![
+        // seeded/C04-11: header next_edge_id,prev_edge_id / a leading extra column
+        ("seed_C04-11_turn_columns_swapped", FCase { family: "corpus_turn_file_layout".into(), nested: false, cfg: turn_with_layout(&[(0, 1), (2, 0)], "permX_extras0"),
+                                                     query: json!({}), cut: None, nedges: 3, nprev: 3 }),
+        ("seed_C04-11_turn_leading_column", FCase { family: "corpus_turn_file_layout".into(), nested: false, cfg: turn_with_layout(&[(0, 1), (2, 0)], "permId_extras1"),
+                                                    query: json!({}), cut: None, nedges: 3, nprev: 3 }),
+        // `<=`: a vehicle exactly at the limit is admitted
+        ("at_the_limit_is_admitted", FCase { family: "corpus_at_the_limit".into(), nested: false, cfg: Cfg::Vehicle { rows }, query: json!({"vehicle_parameters": veh.query()}),
+                                             cut: None, nedges: 4, nprev: 0 }),
+    ]
+}
+
 fn write_corpus(a: &Args) {
     std::fs::create_dir_all(&a.out).unwrap();
+    for (name, fc) in frontier_witnesses() {
+        let desc = json!({"id": 0, "family": fc.family, "nested": fc.nested, "cfg": cfg_to_json(&fc.cfg), "query": enc(&fc.query),
+                          "cut": fc.cut, "nedges": fc.nedges, "nprev": fc.nprev});
+        let v = json!({"stream": "frontier", "finding": name, "case": desc});
+        std::fs::write(a.out.join(format!("{}.json", name)), serde_json::to_string_pretty(&v).unwrap() + "\n").unwrap();
+    }
     for (name, sc) in finding_witnesses().into_iter().chain(regression_witnesses()) {
         let mut desc = scase_to_json(&sc);
         desc["id"] = json!(0);
